@@ -346,6 +346,9 @@ class EnvCheck:
         link = [P["dt"] == P["timestep"] * fs, P["timestep"] > 0]
         # every successor produced by transition() carries the action as its control (obligation mujoco.transition_frame_skip)
         link += [eq_elem(x, y) for x, y in zip(flat_obj(D2["ctrl"]), flat_obj(a))]
+        for k, v in ref.unused_by_v5.items():
+            link.append(eq_elem(P[k], Fraction(v)))
+            ck.assume_note(f"{self.name}: {k} is fixed to its default {v} (the installed {ref.gym_id} accepts the parameter but never uses it)")
         if "env_model_body_mass" in used:
             bm = flat_obj(P["body_mass"])
             link += [m >= 0 for m in bm] + [sum(bm[1:], bm[0]) >= 1]
